@@ -223,6 +223,15 @@ func (c *vC08) body(msgType int, s *vState) []byte {
 		h := protocol.Hmac{Algorithm: protocol.HmacSha256Hash, Value: verif.Bytes("msg_replhmac", 32)}
 		return enc(deviceServiceInfoReady{Hmac: &h})
 	case 68:
+		if verif.Choose("devmodbody", 2) == 1 {
+			// the device's complete devmod (what an honest first DeviceServiceInfo carries)
+			str := func(s string) []byte { return append([]byte{0x60 | byte(len(s))}, s...) }
+			return enc(deviceServiceInfo{IsMoreServiceInfo: false, ServiceInfo: []*serviceinfo.KV{
+				{Key: "devmod:active", Val: []byte{0xf5}}, {Key: "devmod:os", Val: str("o")}, {Key: "devmod:arch", Val: str("a")},
+				{Key: "devmod:version", Val: str("v")}, {Key: "devmod:device", Val: str("d")}, {Key: "devmod:sep", Val: str("/")},
+				{Key: "devmod:bin", Val: str("b")}, {Key: "devmod:nummodules", Val: []byte{0x01}},
+				{Key: "devmod:modules", Val: append([]byte{0x83, 0x00, 0x01}, str("devmod")...)}}})
+		}
 		return enc(deviceServiceInfo{IsMoreServiceInfo: false, ServiceInfo: []*serviceinfo.KV{{Key: "m:x", Val: []byte{0x01}}}})
 	case 70:
 		return enc(doneMsg{NonceTO2ProveDv: vNonceOr(s.proveNonce, "msg_donenonce")})
@@ -235,7 +244,7 @@ func (c *vC08) body(msgType int, s *vState) []byte {
 type vSnap struct {
 	exists                                                               bool
 	devChain, ovh, to0, to1, guid, prove, setup, repl, rvinfo, mtu, hmac, devmod bool
-	keyed                                                                bool
+	keyed, devmodDone                                                    bool
 	proveVal, to0Val, to1Val                                             protocol.Nonce
 }
 
@@ -246,7 +255,7 @@ func vSnapOf(w *vWorld, tok string) vSnap {
 	}
 	sn := vSnap{exists: true, devChain: s.devChain != nil, ovh: s.ovh != nil, to0: s.to0Nonce != nil, to1: s.to1Nonce != nil,
 		guid: s.guid != nil, prove: s.proveNonce != nil, setup: s.setupNonce != nil, repl: s.replGUID != nil, rvinfo: s.hasRvInfo,
-		mtu: s.mtu != nil, hmac: s.replHmac != nil, devmod: s.devmod != nil, keyed: vKeyed(unwrapSess(s.xSess))}
+		mtu: s.mtu != nil, hmac: s.replHmac != nil, devmod: s.devmod != nil, keyed: vKeyed(unwrapSess(s.xSess)), devmodDone: s.devmod != nil && s.devmodComplete}
 	if s.proveNonce != nil {
 		sn.proveVal = *s.proveNonce
 	}
@@ -336,6 +345,7 @@ func vOneStep(nopanic bool) {
 	}
 	if w.count("HandleInfo")+w.count("ProduceInfo") > 0 {
 		verif.Assert(msgType == 68 && validTok && beforeReq.keyed && beforeReq.devmod, "an owner module runs only on TO2.DeviceServiceInfo in a session with tunnel keys and devmod state")
+		verif.Assert(beforeReq.mtu && beforeReq.devmodDone, "an owner module runs only after TO2.DeviceServiceInfoReady was accepted and devmod was completed in this session")
 	}
 	if w.count("ReplaceVoucher") > 0 {
 		verif.Assert(msgType == 70 && validTok && beforeReq.keyed && beforeReq.prove && beforeReq.setup && beforeReq.hmac && beforeReq.repl && beforeReq.rvinfo,
@@ -371,6 +381,7 @@ func vOneStep(nopanic bool) {
 		if after.exists {
 			verif.Assert(!(after.mtu || after.hmac || after.devmod) || after.keyed, "post-ProveDevice state (MTU, replacement HMAC, devmod) exists only in sessions with tunnel keys")
 			verif.Assert(!after.keyed || (after.guid && after.prove), "sessions with tunnel keys hold GUID and ProveDevice nonce")
+			verif.Assert(!after.devmodDone || after.mtu, "devmod is completed (and owner modules started) only in sessions that went through TO2.DeviceServiceInfoReady")
 		}
 	}
 	// token lifetime
